@@ -46,6 +46,10 @@ type Trace struct {
 	Entry uint64 `json:"entry"`
 	Ops   []Op   `json:"ops"`
 	VSeed uint64 `json:"vseed"`
+	// LateLookups: no address is looked up (and nothing is emulated) before
+	// the first accepted block move - an index built on first use must not
+	// assume the initial block order
+	LateLookups bool `json:"late_lookups,omitempty"`
 }
 
 func (t *Trace) Len() int { return len(t.Ops) }
